@@ -58,9 +58,9 @@ class MolGraph:
             self._neighbors = deepcopy(mol_graph._neighbors)
             self._bond_attrs = deepcopy(mol_graph._bond_attrs)
         else:
-            self._atom_attrs = defaultdict(dict)
+            self._atom_attrs = {}
             self._neighbors = defaultdict(set)
-            self._bond_attrs = defaultdict(dict)
+            self._bond_attrs = {}
 
     @property
     def atoms(
